@@ -616,6 +616,18 @@ struct Built {
     fh: FilterHeader,
 }
 
+/// the retarget window of the consensus rules, with the bitcoin crate's own target arithmetic:
+/// within a factor 4 of the previous target (bounds rounded through the compact form, as
+/// bitcoind compares them) and not above the chain maximum
+fn retarget_allowed(network: Network, prev_bits: CompactTarget, bits: CompactTarget) -> bool {
+    let rt = |t: Target| Target::from_compact(t.to_compact_lossy());
+    let (p, t) = (Target::from_compact(prev_bits), Target::from_compact(bits));
+    let params = network.params();
+    let min = rt(p.min_transition_threshold());
+    let max = rt(p.max_transition_threshold(params));
+    t <= params.max_attainable_target && t >= min && t <= max
+}
+
 fn shifted_bits(bits: CompactTarget, kind: u8) -> CompactTarget {
     let t = Target::from_compact(bits);
     let mut b = t.to_be_bytes();
@@ -852,7 +864,13 @@ impl Case {
             atomic_violation = Some(json!({"request": what, "result": code_name(code), "changed": diff_entries(pre, &post)}));
         }
         let mut invalid_accepted = None;
-        if code == 0 {
+        if code != ABORT {
+            let n = self.tr().headers.len();
+            if n > Tracker::MAX_REORG_SIZE {
+                invalid_accepted = Some(json!({"request": what, "remembered_headers": n, "MAX_REORG_SIZE": Tracker::MAX_REORG_SIZE}));
+            }
+        }
+        if code == 0 && invalid_accepted.is_none() {
             if let Some((ok, why)) = validity.clone() {
                 if !ok {
                     invalid_accepted = Some(json!({"request": what, "accepted_although": why}));
@@ -895,11 +913,13 @@ impl Case {
         let trusted = self.tr().trusted_oracle_pubkeys.clone();
         let matching = trusted.iter().filter(|k| b.proof.attestations.iter().any(|(a, _)| a == *k)).count();
         let half = 2 * matching >= trusted.len();
-        let equal_bits_rule = self.network == Network::Testnet
-            || (exp_height % 2016 == 0)
-            || b.header.bits == tip.0.bits;
+        let equal_bits_rule = if exp_height % 2016 == 0 {
+            retarget_allowed(self.network, tip.0.bits, b.header.bits)
+        } else {
+            self.network == Network::Testnet || b.header.bits == tip.0.bits
+        };
         let valid = link && pow && equal_bits_rule && (bypass || self.warn || (pok && half));
-        let why = format!("link={} pow={} equal_bits_off_boundary={} bypass={} warn={} proof_ok={} trusted_attesting={}/{}", link, pow, equal_bits_rule, bypass, self.warn, pok, matching, trusted.len());
+        let why = format!("link={} pow={} difficulty_rule={} bypass={} warn={} proof_ok={} trusted_attesting={}/{}", link, pow, equal_bits_rule, bypass, self.warn, pok, matching, trusted.len());
         // "correct in every respect": same bits (which also passes the retarget window on regtest)
         let bits_surely_ok = if exp_height % 2016 == 0 { self.network == Network::Regtest && b.header.bits == tip.0.bits } else { self.network == Network::Testnet || b.header.bits == tip.0.bits };
         let stream_ok = match (&b.proof.proof, &self.stream) {
@@ -955,8 +975,13 @@ impl Case {
         let matching = trusted.iter().filter(|k| proof.attestations.iter().any(|(a, _)| a == *k)).count();
         let half = 2 * matching >= trusted.len();
         let remembered = self.tr().headers.front().map(|h| h.0 == prev.0 && h.1 == prev.1).unwrap_or(self.allow_deep);
-        let valid = link && pow && remembered && (bypass || self.warn || (pok && half));
-        let why = format!("link={} pow={} matches_remembered_header={} bypass={} warn={} proof_ok={} trusted_attesting={}/{}", link, pow, remembered, bypass, self.warn, pok, matching, trusted.len());
+        let difficulty = if exp_height % 2016 == 0 {
+            retarget_allowed(self.network, prev.0.bits, tip.0.bits)
+        } else {
+            self.network == Network::Testnet || tip.0.bits == prev.0.bits
+        };
+        let valid = link && pow && difficulty && remembered && (bypass || self.warn || (pok && half));
+        let why = format!("link={} pow={} difficulty_rule={} matches_remembered_header={} bypass={} warn={} proof_ok={} trusted_attesting={}/{}", link, pow, difficulty, remembered, bypass, self.warn, pok, matching, trusted.len());
 
         let bits_surely_ok = if exp_height % 2016 == 0 { self.network == Network::Regtest && tip.0.bits == prev.0.bits } else { self.network == Network::Testnet || tip.0.bits == prev.0.bits };
         let stream_ok = match (&proof.proof, &self.stream) {
@@ -1533,6 +1558,51 @@ fn scripted(_args: &Args) {
             "later_request_violations": if !last_ok { vec![json!({"after_a_refused_streamed_block_the_next_streamed_block": outs.last().unwrap().what, "result": code_name(outs.last().unwrap().code)})] } else { vec![] },
             "class": "streamed-reject-stale-decode",
             "invalid_accepted": [], "coq": coq}));
+    }
+    // (3) observation, not a C13 violation: a correct streamed removal is refused, because
+    // remove_block compares the streamed block's hash with the hash of the PREVIOUS header
+    {
+        let st = Start { network: Network::Regtest, trusted: vec![0], warn: false, allow_deep: false, window: 3, height: 7,
+                         tip_bits_kind: None, tip_fh_zero: false, prev_fh_zero: false, listeners: vec![true, false] };
+        let mut case = new_case(&fx, &st, 7003);
+        let coq_cfg = case.coq_cfg(&fx);
+        let coq_init = case.coq_state();
+        let (prev, proof, tip_block) = case.build_remove(&fx, &mut rng, Flavour::StreamedRemoval).unwrap();
+        let bytes = serialize(&tip_block);
+        let o1 = case.do_chunk(&fx, &tip_block, tip_block.block_hash(), 0, &bytes, true, true, true, "chunk(the block to be removed, whole)".into());
+        let o2 = case.do_remove(&fx, &prev, &proof, &tip_block, "remove[correct, streamed]".into());
+        let (prev3, proof3, tip_block3) = case.build_remove(&fx, &mut rng, Flavour::Valid).unwrap();
+        let o3 = case.do_remove(&fx, &prev3, &proof3, &tip_block3, "remove[Valid] (compact)".into());
+        let outs = [o1, o2, o3];
+        let coq = format!("({}, {}, {}, {})", coq_cfg, coq_init,
+            coq_list(&outs.iter().map(|o| o.coq_req.clone()).collect::<Vec<_>>()),
+            coq_list(&outs.iter().map(|o| o.coq_obs.clone()).collect::<Vec<_>>()));
+        emit("CASE", json!({"id": "observation-streamed-removal-is-always-refused", "kind": "scripted",
+            "ops": outs.iter().map(|o| json!([o.what, code_name(o.code)])).collect::<Vec<_>>(),
+            "atomicity_violations": outs.iter().filter_map(|o| o.atomic_violation.clone()).collect::<Vec<_>>(),
+            "later_request_violations": if outs[2].code != 0 { vec![json!({"after_a_refused_request_the_correct_request": outs[2].what, "result": code_name(outs[2].code)})] } else { vec![] },
+            "invalid_accepted": [], "coq": coq}));
+    }
+    // (4) observation: a stream that stops short followed by AddBlock is a panic inside
+    // BlockDecoder::finish (merkle root assertion), not Err(BlockDecodeError)
+    {
+        let st = Start { network: Network::Regtest, trusted: vec![0], warn: false, allow_deep: false, window: 2, height: 9,
+                         tip_bits_kind: None, tip_fh_zero: false, prev_fh_zero: false, listeners: vec![false, false] };
+        let mut case = new_case(&fx, &st, 7004);
+        let coq_cfg = case.coq_cfg(&fx);
+        let coq_init = case.coq_state();
+        let (b, ch) = case.build_add(&fx, &mut rng, Flavour::ValidStreamed);
+        let bytes = serialize(&b.block);
+        let cut = bytes.len() - 2;
+        let o1 = case.do_chunk(&fx, &b.block, b.block.block_hash(), 0, &bytes[..cut], true, true, false, format!("chunk(0..{} of {})", cut, bytes.len()));
+        let o2 = case.do_add(&fx, &b, ch, "add[streamed, two bytes of the block never sent]".into());
+        let outs = [o1, o2];
+        let coq = format!("({}, {}, {}, {})", coq_cfg, coq_init,
+            coq_list(&outs.iter().map(|o| o.coq_req.clone()).collect::<Vec<_>>()),
+            coq_list(&outs.iter().map(|o| o.coq_obs.clone()).collect::<Vec<_>>()));
+        emit("CASE", json!({"id": "observation-incomplete-stream-panics", "kind": "scripted",
+            "ops": outs.iter().map(|o| json!([o.what, code_name(o.code)])).collect::<Vec<_>>(),
+            "atomicity_violations": [], "later_request_violations": [], "invalid_accepted": [], "coq": coq}));
     }
     emit("STATS", json!({"kind": "scripted"}));
 }
